@@ -54,9 +54,18 @@ def key_of(e, d, loopkeys):
     return None
 
 
-def presence_tests(test, d):
+def presence_tests(test, d, fi=None, at=None):
     """keys (constants or variable names) known present when `test` is TRUE / known present when it is FALSE"""
     t_true, t_false = set(), set()
+    if fi is not None and at is not None and any(isinstance(n, ast.Name) and n.id != d for n in ast.walk(test)):
+        # local names for `d.get(K)` (df = d.get(K); if df is not None ...) are written out
+        try:
+            import copy as _copy
+            x = astq.expr_at(fi, at, _copy.deepcopy(test), keep=(d,))
+            if any(isinstance(n, ast.Attribute) and n.attr == "get" and isinstance(n.value, ast.Name) and n.value.id == d for n in ast.walk(x)):
+                test = x
+        except Exception:
+            pass
     if astq.PROG is not None and CUR.get("fi") is not None and any(isinstance(n, ast.Call) and isinstance(n.func, ast.Name) for n in ast.walk(test)):
         # a helper predicate such as _wrong_ncols(d, K, 3): decide on its inlined body
         try:
@@ -64,7 +73,7 @@ def presence_tests(test, d):
         except Exception:
             pass
     if isinstance(test, ast.UnaryOp) and isinstance(test.op, ast.Not):
-        a, b = presence_tests(test.operand, d)
+        a, b = presence_tests(test.operand, d, fi, at)
         return b, a
 
     def atom(e):
@@ -156,7 +165,7 @@ def walk_block(fi, body, d, present, optional, all_sheets, out, loopkeys):
     for s in body:
         if isinstance(s, ast.If):
             reads_in_expr(s.test, d, loopkeys, present, out, s)
-            tt, tf = presence_tests(s.test, d)
+            tt, tf = presence_tests(s.test, d, fi, s)
             p1 = walk_block(fi, s.body, d, present | tt, optional, all_sheets, out, loopkeys)
             p2 = walk_block(fi, s.orelse, d, present | tf, optional, all_sheets, out, loopkeys)
             ends1 = any(isinstance(x, (ast.Raise, ast.Return)) for x in s.body[-1:])
